@@ -397,7 +397,8 @@ Fixpoint infer (st : bool) (S : symtab) (G : tenv) (K : list text) (e : expr) {s
               | None => None
               end
           | TLen, Some ts =>
-              if existsb is_opt ts then None                                  (* the fix *)
+              if negb (Nat.eqb (length ts) 1) then None     (* exactly one argument (c7b0cf8d) *)
+              else if existsb is_opt ts then None                             (* the fix *)
               else if st && negb (match ts with [t] => lengthable t | _ => false end) then None
               else Some (TPrim PLength)
           | _, _ => None
@@ -658,3 +659,86 @@ Definition guard_ok (e : expr) : bool :=
 
 Definition guards_on_paths (root : expr) : bool :=
   forallb wf_expr (subs root) && forallb guard_ok (subs root).
+
+(** ** Bodies of transpilable verification functions: assignments to local names and returns
+    ([transform_assignment], [transform_return], [infer_for_verification]).
+
+    A first assignment to a name that the environment chain does not know introduces the
+    local with the type of the value; an assignment to a known name (argument, local,
+    global) requires [_assignable target value] and leaves the recorded type unchanged.
+    Every statement is inferred with an empty non-null map. *)
+Inductive stmt : Type :=
+| SAssign (x : text) (e : expr)
+| SReturn (e : expr).
+
+Definition stmt_expr (s : stmt) : expr := match s with SAssign _ e | SReturn e => e end.
+
+Definition is_descendant (S : symtab) (c d : text) : bool :=
+  text_eqb c d ||
+  match find_class S c with Some cd => mem_text d (c_desc cd) | None => false end.
+
+(** [_assignable] on the types that can occur as values of expressions. Constrained
+    primitives of the generated meta-models all have invariants and no descendants. *)
+Fixpoint assignable_real (S : symtab) (target value : ty) : bool :=
+  match target with
+  | TPrim p => match value with TPrim q | TCons _ q => prim_eqb p q | _ => false end
+  | TClass c => match value with TClass d => is_descendant S c d | _ => false end
+  | TEnum e => match value with TEnum f => text_eqb e f | _ => false end
+  | TCons n p => match value with TCons m q => text_eqb n m && prim_eqb p q | _ => false end
+  | TList t => match value with TList u => ty_eqb t u | _ => false end
+  | TSet t => match value with TSet u => ty_eqb t u | _ => false end
+  | TOpt t => match value with
+              | TOpt v => assignable_real S t v
+              | v => assignable_real S t v
+              end
+  | TVerif f => match value with TVerif g => text_eqb f g | _ => false end
+  | TLen => match value with TLen => true | _ => false end
+  | TMethod c m => match value with TMethod d n => text_eqb c d && text_eqb m n | _ => false end
+  | TEnumType _ => false          (* NotImplementedError in the code; never generated *)
+  end.
+
+(** [Some G'] = no error was reported; [G'] = environment after the body. The code goes on
+    after an erroneous statement (collecting errors); only the verdict is observed. *)
+Fixpoint infer_body (st : bool) (S : symtab) (G : tenv) (body : list stmt) : option tenv :=
+  match body with
+  | [] => Some G
+  | SAssign x e :: rest =>
+      match infer st S G [] e with
+      | None => None
+      | Some tv =>
+          match lookup x G with
+          | Some tg => if assignable_real S tg tv then infer_body st S G rest else None
+          | None => infer_body st S ((x, tv) :: G) rest
+          end
+      end
+  | SReturn e :: rest =>
+      match infer st S G [] e with
+      | None => None
+      | Some _ => infer_body st S G rest
+      end
+  end.
+
+(** Type map of the expressions of the statements, in order. *)
+Fixpoint body_trace (st : bool) (S : symtab) (G : tenv) (body : list stmt) : list (option ty) :=
+  match body with
+  | [] => []
+  | SAssign x e :: rest =>
+      type_trace st S G [] e ++
+      match infer st S G [] e, lookup x G with
+      | Some tv, None => body_trace st S ((x, tv) :: G) rest
+      | _, _ => body_trace st S G rest
+      end
+  | SReturn e :: rest => type_trace st S G [] e ++ body_trace st S G rest
+  end.
+
+(** Python: run the statements; the value of the first [return]. *)
+Fixpoint eval_body (r : env) (body : list stmt) (fuel : nat) : pyresult :=
+  match body with
+  | [] => Val VNone
+  | SAssign x e :: rest =>
+      match eval r e fuel with
+      | Raise ex => Raise ex
+      | Val v => eval_body (bind_var x v r) rest fuel
+      end
+  | SReturn e :: _ => eval r e fuel
+  end.
